@@ -234,7 +234,7 @@ fn rename_case(rng: &mut Rng) -> Case {
     let want_sym = rng.chance(1, 2);
     let (ops, stream) = loop {
         let (ops, stream) = gen_history(rng);
-        if !want_sym || matches!(stream, "inherit" | "symred" | "deepsym" | "symmetry") {
+        if !want_sym || matches!(stream, "inherit" | "symred" | "deepsym" | "symmetry" | "upmerge") {
             break (ops, stream);
         }
     };
